@@ -11,7 +11,7 @@ import (
 
 // ---- C04.truncate: truncate(limit, s) against the reference of DESIGN A.2
 
-func refTruncate(limit int, s string) string {
+func c04RefTruncate(limit int, s string) string {
 	if limit < 0 || len(s) <= limit {
 		return s
 	}
@@ -34,7 +34,7 @@ func HarnessC04Truncate() {
 	s := vndString(vndParam("N", 5))
 	limit := vndChoice(vndParam("L", 4)+2) - 1
 	got := truncate(limit, s)
-	want := refTruncate(limit, s)
+	want := c04RefTruncate(limit, s)
 	if limit >= 0 && len(s) > limit {
 		vndReach("cut")
 		vndAssert(utf8.RuneCountInString(got) <= limit, "truncate-at-most-limit-characters")
@@ -85,7 +85,7 @@ func HarnessC04TruncatePieces() {
 	}
 	limit := vndChoice(vndParam("L", 3) + 1)
 	got := truncate(limit, s)
-	want := refTruncate(limit, s)
+	want := c04RefTruncate(limit, s)
 	if len(s) > limit {
 		vndReach("cut")
 		vndAssert(utf8.RuneCountInString(got) <= limit, "truncate-at-most-limit-characters")
@@ -146,7 +146,7 @@ func (m *c04Attrs) set(countLimit, lenLimit int, attrs []attribute.KeyValue) {
 			continue
 		}
 		if a.Value.Type() == attribute.STRING {
-			a = a.Key.String(refTruncate(lenLimit, a.Value.AsString()))
+			a = a.Key.String(c04RefTruncate(lenLimit, a.Value.AsString()))
 		}
 		found := false
 		for i := range m.kvs {
@@ -185,7 +185,7 @@ func c04Attr(kinds int) attribute.KeyValue {
 	}
 }
 
-func sameValue(a, b attribute.Value) bool {
+func c04SameValue(a, b attribute.Value) bool {
 	if a.Type() != b.Type() {
 		return false
 	}
@@ -210,7 +210,7 @@ func c04CompareAttrs(got []attribute.KeyValue, gotDropped int, m *c04Attrs, tag 
 	}
 	for i := range got {
 		vndAssert(got[i].Key == m.kvs[i].Key, tag+"-attribute-order-is-first-insertion")
-		vndAssert(sameValue(got[i].Value, m.kvs[i].Value), tag+"-last-value-wins-and-truncated")
+		vndAssert(c04SameValue(got[i].Value, m.kvs[i].Value), tag+"-last-value-wins-and-truncated")
 	}
 }
 
